@@ -1,8 +1,8 @@
 #!/bin/bash
 # Runs the repository's own test suite with the verif guard OFF and compares with /root/.vp/BASELINE.json:
 # every test in stable_pass must pass. Exit 0 iff so.
-cd /verif && . ./env.sh
-out=$(mktemp /verif/out/baseline.XXXXXX.json 2>/dev/null || { mkdir -p /verif/out; mktemp /verif/out/baseline.XXXXXX.json; })
+cd "$(dirname "$(readlink -f "$0")")" && . ./env.sh
+mkdir -p out; out=$(mktemp "$(pwd)/out/baseline.XXXXXX.json")
 (cd /repo && go test -mod=mod -json -vet=off -count=1 -timeout 25m ./... > "$out" 2>/dev/null)
 python3 - "$out" <<'PY'
 import json,sys
